@@ -98,6 +98,7 @@ int main(int argc, char **argv)
 		watchdog(cpu_limit(p));
 		optvar_begin(p.seed * 1000003ULL + p.run);
 		RunResult r = e->exec(p);
+		(void)!chdir("/");	// some plans work from inside their scratch directory
 		watchdog(0);
 		printf("%s\n", r.line(p.run).c_str());
 		fflush(stdout);
@@ -129,6 +130,7 @@ int main(int argc, char **argv)
 		watchdog(cpu_limit(q));
 		optvar_begin(q.seed * 1000003ULL + q.run);
 		RunResult r = e->exec(q);
+		(void)!chdir("/");
 		watchdog(0);
 		printf("%s\n", r.line(i).c_str());
 		if (r.viol && violdir) {
